@@ -211,4 +211,21 @@ def handle (vs : Variants) (h : Handler) (typ fb : String) (refreshOnMiss : Bool
     | .pinned, .proxy    => ⟨[], 502, []⟩   -- ErrNoHealthyEndpoints -> handleProxyError
     | .pinned, .provider => ⟨[], 404, []⟩   -- "No <provider> endpoints available"
 
+/-! ### What the routing stage sees of the request document
+
+`BodyInspector.Inspect` reads a JSON document only when it is at most `peekMax` bytes long (a declared length above that
+is skipped outright; of an undeclared one the first `peekMax` bytes are read and do not parse).  The request profile of
+a longer document carries no model name, `filterEndpointsByProfile` skips its third stage, and the request is forwarded
+to the healthy candidates whatever model it names.  Kept as it is in the tree (known finding, see Props/C09). -/
+
+def peekMax : Nat := 1048576
+
+def modelVisible (docLen : Nat) : Bool := docLen ≤ peekMax
+
+def handleDoc (vs : Variants) (h : Handler) (typ fb : String) (refreshOnMiss : Bool)
+    (healthy modelEps : List Ep) (docLen : Nat) : HttpOut :=
+  if modelVisible docLen then handle vs h typ fb refreshOnMiss healthy modelEps
+  else if !healthy.isEmpty then ⟨healthy, 0, []⟩
+  else match h with | .proxy => ⟨[], 502, []⟩ | .provider => ⟨[], 404, []⟩
+
 end Olla.Model.Routing
